@@ -1130,9 +1130,9 @@ class Executor:
             if isinstance(e.op, ast.Invert):
                 if v.cond is not None:
                     return Num(None, v.shape, "bool", v.pytype, cond=v.cond.neg())
-                if v.dtype == "bool" or v.meta.get("boolarr"):
-                    return self.mk("invert", v.nf, shape=v.shape, dtype="bool")
-                raise Undecided("bitwise invert of a non-boolean", e)
+                r = self.mk("invert", v.nf, shape=v.shape, dtype="bool" if (v.dtype == "bool" or v.meta.get("boolarr")) else v.dtype)
+                r.meta["boolarr"] = True
+                return r
         if isinstance(v, OpaqueV):
             return OpaqueV(f"{type(e.op).__name__}({v.key})")
         raise Undecided(f"unary {type(e.op).__name__} on {v!r}", e)
